@@ -203,6 +203,22 @@ def check(report, tier, seed):
                     report.violation("cli-wrong-run", "halting program did not report 3 cycles", rep)
                 if hk == "errstat" and t >= 2 and "Error code: 4" not in out:
                     report.violation("cli-wrong-run", "error status not reported", rep)
+        # a final state that could not be printed is not "printed the final state": with standard output on a full
+        # device the status must not be 0 (the unmodified program gives 1 with a message, or 101 from print! under -q)
+        if os.path.exists("/dev/full"):
+            n_full = 0
+            for i, (args, inv, hk, lossy) in enumerate(cases):
+                if n_full >= (12 if tier == "quick" else 150):
+                    break
+                if i not in observed or observed[i][0] != 0 or b"-------" not in observed[i][1] or hk == "forever":
+                    continue
+                n_full += 1
+                with open("/dev/full", "wb") as sink:
+                    r = subprocess.run([cli.encode()] + [a.encode("utf-8", "surrogateescape") for a in args], stdout=sink, stderr=subprocess.PIPE, timeout=60, input=b"\n" * 50)
+                res["stdout_full:%d" % r.returncode] += 1
+                if r.returncode == 0:
+                    report.violation("cli-success-without-output", "standard output cannot be written (/dev/full) but the exit status is 0 for %r" % [a.replace(d, "<tmp>") for a in args],
+                                     {"args": [a.replace(d, "<tmp>") for a in args], "exit": 0, "stderr": r.stderr.decode("utf-8", "replace")[:300]})
         # END TO END: the whole command composed in the model (Tool.tool_main_as: options, file reading, preamble, lexer,
         # parser, builder, loader, simulator, final dump) on the same argument vector and the same file contents:
         # exit status and standard output, byte for byte (lines as a multiset under -d / --trace-assignments, whose
